@@ -24,6 +24,7 @@ package props
 
 import (
 	"context"
+	"flag"
 	"fmt"
 	"math/big"
 	"os"
@@ -192,7 +193,25 @@ const c25SigSequential = "c25-sequential-read-perturbs"
 // failing variant above is kept for replaying the saved minimal history).
 func TestC25_KF_SequentialReads(t *testing.T) {
 	reproduced := false
-	// the finding needs a few hundred histories: repeat the configured number of cases up to
+	// first replay the saved minimal history (rapid runs the named fail file before anything else)
+	root := os.Getenv("VERIF_ROOT")
+	if root == "" {
+		root = "/verif"
+	}
+	if known := root + "/replays/C25/known/TestC25SequentialReads-20260922030755-29594.fail"; fileExists(known) {
+		_ = flag.Set("rapid.failfile", known)
+		rapid.Check(t, func(t *rapid.T) {
+			if reproduced {
+				return
+			}
+			c25Sequential(t, func(string) { reproduced = true })
+		})
+		_ = flag.Set("rapid.failfile", "")
+		if reproduced {
+			sim.S.Label("C25/known-finding-replayed-from-saved-history")
+		}
+	}
+	// otherwise search for it: the finding needs a few hundred histories: repeat the configured number of cases up to
 	// ten times, shifting the random stream by a few throw-away draws per round
 	for round := 0; round < 10 && !reproduced; round++ {
 		rapid.Check(t, func(t *rapid.T) {
@@ -271,4 +290,9 @@ func c25Sequential(t *rapid.T, onDivergence func(string)) {
 		sim.S.LabelN("C25/sequential/orders-added", r.KindsOK["addOrder"])
 		sim.S.Case("TestC25_KF_SequentialReads", reads > 0 && r.KindsOK["addOrder"] > 0, sim.HashStrings(r.Steps), func() interface{} { return sim.HistorySample(r.Steps, 20) })
 	}
+}
+
+func fileExists(p string) bool {
+	_, err := os.Stat(p)
+	return err == nil
 }
